@@ -407,6 +407,7 @@ def run_check(mod, tier, seed, only=None):
     seen_classes = collections.Counter()
     reported = set()
     infra = None
+    unrepro = []
     findings = sorted(total.findings, key=lambda f: (f.cls, f.where))
     max_per_class = cfg.get('max_per_class', 2 if tier == 'quick' else 3)
     ctx.pipeline_deadline = time.time() + (240 if tier == 'quick' else 900)
@@ -420,8 +421,13 @@ def run_check(mod, tier, seed, only=None):
             infra = 'processing finding %s failed: %s' % (f.cls, traceback.format_exc())
             break
         if res['status'] == 'infra':
-            infra = res['msg']
-            break
+            # a candidate that does not repeat gives no verdict, but it must not keep the other candidates
+            # from being examined (it does not use up the per-class quota either)
+            unrepro.append(res['msg'])
+            seen_classes[f.cls] -= 1
+            if len(unrepro) >= 8:
+                break
+            continue
         if res['status'] == 'dropped':
             total.stats['dropped:' + res['msg'][:60]] += 1
             continue
@@ -436,12 +442,14 @@ def run_check(mod, tier, seed, only=None):
             out_lines.append('VIOLATION property=%s replay=%s' % (mod.ID, res['path']))
             out_lines.append('  class=%s %s' % (f.cls, res['detail'][:400]))
     wall = time.time() - t0
+    if unrepro and infra is None:
+        infra = '%d candidate violation(s) did not repeat; first: %s' % (len(unrepro), unrepro[0])
     write_evidence(mod, tier, seed, total, wall, n_viol, out_lines, capped, known=n_known, error=infra)
     for l in out_lines:
         print(l)
     if infra:
         print('ERROR: infrastructure fault (not a verdict): %s' % infra)
-        return 2
+        return 1 if n_viol else 2
     print('%s %s seed=%d: %d scenarios %d evaluations, %d violation(s), %d known finding hit(s), %.1fs' % (
         mod.ID, tier, seed, total.scenarios, total.evaluations, n_viol, n_known, wall))
     return 1 if n_viol else 0
